@@ -340,11 +340,18 @@ class Canon:
             name = H.canon_path(n.get("inst") or n.get("callee") or n["name"])
             if n["name"] == "is_empty" and not n["args"]:
                 return "(0 == %s.len())" % self.c(n["recv"], d)
-            return "%s(%s)" % (name, ", ".join([self.c(n["recv"], d)] + [self.c(a, d) for a in n["args"]]))
+            parts = [self.c(n["recv"], d)] + [self.c(a, d) for a in n["args"]]
+            if name.endswith(("::min", "::max")) and len(parts) == 2:
+                parts.sort()        # commutative
+            return "%s(%s)" % (name, ", ".join(parts))
         if k == "Call":
             if H.canon_path(H.callee(n) or "") == "core::ops::range::RangeInclusive::new":
                 return "%s..=%s" % (self.c(n["args"][0], d), self.c(n["args"][1], d))
-            return "%s(%s)" % (self.c(n["f"], d), ", ".join(self.c(a, d) for a in n["args"]))
+            parts = [self.c(a, d) for a in n["args"]]
+            fname = self.c(n["f"], d)
+            if fname.endswith(("::min", "::max")) and len(parts) == 2:
+                parts.sort()        # commutative
+            return "%s(%s)" % (fname, ", ".join(parts))
         if k == "Try":
             return self.c(n["e"], d) + "?"
         if k == "Tup":
